@@ -82,6 +82,8 @@ def framework_workbook(spec):
     if spec["junction"] != "none":
         T["s2"]["jn"] = "p_triage"
         T["jn"]["s3"] = "prop_tx"
+        if spec["timed"]:
+            T["jn"]["tm"] = "prop_jvac"  # a junction feeding a timed compartment from outside its duration group
         if spec["junction"] == "plain":
             T["jn"]["s1"] = "prop_rec"
     else:
@@ -125,8 +127,10 @@ def framework_workbook(spec):
     P.append(["p_triage", "Diagnosis", "rate", ts, None, 0, None, None, "y", "flows", None])
     if spec["junction"] != "none":
         P.append(["prop_tx", "Proportion treated", "proportion", None, None, 0, 1, None, "y", "flows", None])
+        if spec["timed"]:
+            P.append(["prop_jvac", "Proportion protected at triage", "proportion", None, None, 0, 1, None, "n", "flows", None])
         if spec["junction"] == "plain":
-            P.append(["prop_rec", "Proportion recovering", "proportion", None, None, 0, 1, "1-prop_tx", "n", None, None])
+            P.append(["prop_rec", "Proportion recovering", "proportion", None, None, 0, 1, "max(0,1-prop_tx" + ("-prop_jvac" if spec["timed"] else "") + ")", "n", None, None])
     P.append(["dur_tx", "Treatment duration", "duration", None, None, 0, None, None, "n", "flows", None])
     if spec["timed"]:
         P.append(["p_vac", "Vaccination", "probability", None, None, 0, None, None, "y", "flows", None])
@@ -136,6 +140,8 @@ def framework_workbook(spec):
         P.append(["mort", "Mortality", "probability", None, None, 0, None, None, "n", "flows", None])
         P.append(["mort_inf", "Disease mortality", "number", None, None, 0, None, None, "y", "flows", None])
     P.append(["tx_frac", "Treated fraction (output)", "proportion", None, None, None, None, "s3/max(alive,1)", "n", None, None])
+    # output parameter using the flow syntax ('s2:' = all flows out of s2, which includes transfer links added after the populations are built)
+    P.append(["dur_inf", "Average time infected (output)", "years", None, None, None, None, "min(s2/max(s2:,1e-15),50)", "n", None, None])
     ws = wb.create_sheet("Parameters")
     ws.append(["Code name", "Display name", "Format", "Timescale", "Default value", "Minimum value", "Maximum value", "Function", "Targetable", "Databook page", "Timed"])
     for p in P:
@@ -188,7 +194,7 @@ def build_project(spec, name="generated"):
 
     values = {
         "s1": 1000.0, "s2": 100.0, "s3": 50.0, "tm": 40.0,
-        "b_rate": 30.0, "beta": 0.3, "foi": 0.05, "p_triage": 0.4, "prop_tx": 0.7, "dur_tx": 2.0,
+        "b_rate": 30.0, "beta": 0.3, "foi": 0.05, "p_triage": 0.4, "prop_tx": 0.7, "prop_jvac": 0.15, "dur_tx": 2.0,
         "p_vac": 0.1, "dur_vac": spec["timed_duration"], "p_break": 0.05, "mort": 0.02, "mort_inf": 3.0,
     }
     trends = {"beta": -0.3, "p_triage": 0.5, "b_rate": 0.2, "prop_tx": 0.2, "foi": -0.2, "mort_inf": -0.3}
@@ -212,14 +218,32 @@ def build_project(spec, name="generated"):
         names = list(pops.keys())
         for a, b in zip(names[:-1], names[1:]):
             ts = at.TimeSeries(units="probability")
-            ts.assumption = 0.05
+            if spec["sparse_data"]:
+                ts.insert(float(tvec[0]), 0.05)
+                ts.insert(float(tvec[-1]), 0.04)
+            else:
+                ts.assumption = 0.05
             tdc.ts[(a, b)] = ts
+        if len(names) > 2:
+            # a second destination from the first population: two neighbouring rows of the transfer table are filled,
+            # one with time-specific values and one with a constant / other years
+            ts = at.TimeSeries(units="probability")
+            if spec["uncertainty"]:
+                ts.insert(float(tvec[1]), 0.01)
+            else:
+                ts.assumption = 0.01
+            tdc.ts[(names[0], names[2])] = ts
     for tdc in data.interpops:
         names = list(pops.keys())
-        for a in names:
-            for b in names:
+        for i, a in enumerate(names):
+            for j, b in enumerate(names):
                 ts = at.TimeSeries(units="N.A.")
-                ts.assumption = 1.0 if a == b else 0.5
+                base = 1.0 if a == b else 0.5
+                if spec["sparse_data"] and (i + j) % 2 == 1:
+                    ts.insert(float(tvec[0]), base)
+                    ts.insert(float(tvec[min(2, len(tvec) - 1)]), base * 1.5)
+                else:
+                    ts.assumption = base
                 tdc.ts[(a, b)] = ts
     P = at.Project(name=name, framework=fw, databook=data, do_run=False)
     P.settings.update_time_vector(start=y0, end=y0 + spec["years"], dt=spec["dt"])
